@@ -504,3 +504,69 @@ func TestReplayDocValueCacheAfterFailedLoad(t *testing.T) {
 	}
 }
 
+
+// D14: the location chunk fails to load after the freq/norm chunk was loaded: the iterator must
+// not take the chunk for loaded on the next call (the location decoder has no reader yet).
+func TestReplayChunkLoadFailsBetweenDecoders(t *testing.T) {
+	var docs []segment.Document
+	for i := 0; i < 6; i++ {
+		docs = append(docs, &FakeDocument{
+			NewFakeField("_id", fmt.Sprintf("%d", i), true, false, false),
+			NewFakeField("desc", "apple ball cat apple", true, true, true),
+		})
+	}
+	s, _, err := newWithChunkMode(docs, encodeNorm, 1024)
+	if err != nil {
+		t.Fatal(err)
+	}
+	f, err := os.CreateTemp("", "d14")
+	if err != nil {
+		t.Fatal(err)
+	}
+	defer os.Remove(f.Name())
+	if _, err = s.(*Segment).WriteTo(f, nil); err != nil {
+		t.Fatal(err)
+	}
+	data, err := segment.NewDataFile(f)
+	if err != nil {
+		t.Fatal(err)
+	}
+	ls, err := load(data)
+	if err != nil {
+		t.Fatal(err)
+	}
+	d, err := ls.dictionary("desc")
+	if err != nil {
+		t.Fatal(err)
+	}
+	pl, err := d.postingsList([]byte("apple"), nil, nil)
+	if err != nil {
+		t.Fatal(err)
+	}
+	it, err := pl.iterator(true, true, true, nil)
+	if err != nil {
+		t.Fatal(err)
+	}
+	// storage starts failing inside the location stream: the freq/norm chunk is still readable
+	if err := f.Truncate(int64(it.locReader.dataStartOffset + 2)); err != nil {
+		t.Fatal(err)
+	}
+	next := func() (err error) {
+		defer func() {
+			if r := recover(); r != nil {
+				err = fmt.Errorf("panic: %v", r)
+			}
+		}()
+		_, err = it.Next()
+		return err
+	}
+	e1 := next()
+	if e1 == nil {
+		t.Fatalf("expected an error from the first Next")
+	}
+	for k := 0; k < 3; k++ {
+		if e := next(); e != nil && len(e.Error()) > 6 && e.Error()[:6] == "panic:" {
+			t.Fatalf("Next #%d after a failed chunk load panicked: %v (first error: %v)", k+2, e, e1)
+		}
+	}
+}
